@@ -75,7 +75,7 @@ func wirePeer(w *W, nt *Net, s mangos.Socket, tran, role string) net.Conn {
 
 func wirePeerReal(w *W, s mangos.Socket, tran, role string) net.Conn {
 	srv, cli := tlsConfigs()
-	netw, laddr := "tcp", "127.0.0.1:0"
+	netw, laddr := "tcp", loopIP+":0"
 	if tran == "ipc" {
 		netw = "unix"
 		laddr = fmt.Sprintf("%s/verif-c15-%d-%d.sock", os.TempDir(), os.Getpid(), w.RunIdx)
@@ -482,7 +482,7 @@ func c15WS(w *W) {
 	info := s.Info()
 	var ws *websocket.Conn
 	if role == "listen" {
-		l, err := s.NewListener("ws://127.0.0.1:0/sp", nil)
+		l, err := s.NewListener("ws://"+loopIP+":0/sp", nil)
 		if err != nil || l.Listen() != nil {
 			w.Failf("HARNESS/listen", "ws listen: %v", err)
 			return
@@ -506,7 +506,7 @@ func c15WS(w *W) {
 		offered := make(chan []string, 1)
 		got := make(chan *websocket.Conn, 1)
 		up := websocket.Upgrader{CheckOrigin: func(*http.Request) bool { return true }}
-		ln, err := net.Listen("tcp", "127.0.0.1:0")
+		ln, err := net.Listen("tcp", loopIP+":0")
 		if err != nil {
 			w.Failf("HARNESS/listen", "%v", err)
 			return
